@@ -34,8 +34,11 @@ Prompt(e) == (e.kind = "post" /\ e.outcome # "hang") => (e.ret >= 0 /\ e.ret <= 
 \* transmitted completely is yielded
 ScanHolds(e) == /\ SC!IsPrefixOf(e.yielded, e.truth)
                 /\ Len(e.yielded) >= e.n
-\* code-shaped: at a clean end of input the scanner yields whatever it has accumulated
+\* code-shaped: at a clean end of input the scanner yields whatever it has accumulated (e.fx = FALSE) /
+\* discards the unterminated event and the unterminated line (e.fx = TRUE, the FixScanner repair)
 ScanStrict(e) ==
+  IF e.fx THEN Len(e.yielded) = e.n /\ e.ended = (IF e.knd = "err" THEN "readerr" ELSE "clean")
+  ELSE
   /\ Len(e.yielded) \in {e.n + (IF e.knd = "eof" /\ e.cls \in {"name", "id", "idfull", "data", "datafull"} THEN 1 ELSE 0),
                          e.n + (IF e.knd = "eof" /\ e.cls \in {"id", "idfull", "data", "datafull"} THEN 1 ELSE 0)}  \* name: nothing yet / a name only
   /\ e.ended = (IF e.knd = "err" THEN "readerr" ELSE IF e.cls = "field" THEN "malformed" ELSE "clean")
